@@ -308,74 +308,94 @@ func rulePrologue(r *Run, rule, m string, stickySetErr bool) {
 		return
 	}
 	info := fl.Info
+	atom := func(e ast.Expr) (string, bool, bool) {
+		if isBuilderField(info, e, "emitted") {
+			return "emitted", false, true
+		}
+		if x, op, ok := IsNilCompare(info, e); ok && isBuilderField(info, x, "err") {
+			return "err-stored", op == token.EQL, true
+		}
+		return "", false, false
+	}
+	// What must never happen once the plan was emitted or while an error is stored: a change of the
+	// builder or of the plan under construction. Reading state, building an error value and calling a
+	// sticky setErr are harmless wherever they stand.
+	isLocal := func(e ast.Expr) bool {
+		id, ok := ast.Unparen(e).(*ast.Ident)
+		if !ok {
+			return false
+		}
+		if id.Name == "_" {
+			return true
+		}
+		o := info.ObjectOf(id)
+		if o == nil {
+			return true // the symbol of a type switch
+		}
+		v, ok := o.(*types.Var)
+		return ok && !v.IsField() && v.Pkg() != nil && v.Parent() != v.Pkg().Scope()
+	}
+	harmless := map[string]bool{bKey("setErr"): true, bKey("current"): true, bKey("Err"): true, "errors.New": true, "fmt.Errorf": true, "fmt.Sprintf": true}
 	badOrder, badSticky := "", ""
+	var posOrder, posSticky = fn.Decl.Pos(), fn.Decl.Pos()
+	guardsSeen := false
 	for i := range paths {
 		p := &paths[i]
 		if p.Exit != ExitReturn {
 			continue
 		}
-		stage := 0 // 0: before emitted test, 1: before err test, 2: past both
-		errKnownNil := false
-		for _, e := range p.Ev {
+		var inSetErr *ast.CallExpr
+		for j, e := range p.Ev {
+			if inSetErr != nil {
+				if e.Kind == EvInlEnd && e.Call == inSetErr {
+					inSetErr = nil
+				}
+				continue
+			}
+			what := ""
 			switch e.Kind {
 			case EvBranch:
-				if e.Cond == nil {
-					continue
-				}
-				c := ast.Unparen(e.Cond)
-				switch {
-				case isBuilderField(info, c, "emitted") && stage == 0:
-					stage = 1
-					if e.Taken {
-						stage = 9 // on the rejecting arm
-					}
-					continue
-				case stage == 1:
-					if x, op, ok := IsNilCompare(info, c); ok && isBuilderField(info, x, "err") {
-						if (op == token.NEQ) == e.Taken {
-							stage = 8 // err already set: must return with no effect
-						} else {
-							stage = 2
-							errKnownNil = true
-						}
-						continue
+				if e.Cond != nil {
+					if k, _, ok := atom(ast.Unparen(e.Cond)); ok && k != "" {
+						guardsSeen = true
 					}
 				}
-				if stage < 2 && stage != 9 && stage != 8 && badOrder == "" {
-					badOrder = m + " evaluates " + ExprStr(e.Cond) + " before its `emitted` and `err` guards"
+			case EvAssign:
+				for _, l := range e.Lhs {
+					if !isLocal(l) {
+						what = "assigns " + ExprStr(l)
+					}
 				}
 			case EvCall:
 				k := CalleeKey(e)
 				if k == bKey("setErr") {
-					if !errKnownNil && !stickySetErr && badSticky == "" {
-						badSticky = m + " calls setErr on a path that has not established b.err == nil (the `emitted` arm): a later misuse replaces the first error, so the error reported changes from call to call and Plan()/Err() no longer return the first one"
+					if e.Inlined {
+						inSetErr = e.Call
+					}
+					if !stickySetErr && !PathRefutedRange(fl, p, 0, j, map[string]bool{"err-stored": true}, atom) && badSticky == "" {
+						badSticky, posSticky = m+" calls setErr on a path that has not established b.err == nil: a later misuse replaces the first error, so the error reported changes from call to call and Plan()/Err() no longer return the first one", e.Pos
 					}
 					continue
 				}
-				if (k == "errors.New" || k == "fmt.Errorf") && (stage == 9 || stage == 8) {
-					continue
-				}
-				if stage == 8 && badOrder == "" {
-					badOrder = m + " performs " + ExprStr(e.Call.Fun) + " although an earlier error is stored (the call must be a no-op)"
-				}
-				if stage < 2 && stage != 9 && stage != 8 && badOrder == "" {
-					badOrder = m + " calls " + ExprStr(e.Call.Fun) + " before its `emitted` and `err` guards"
-				}
-			case EvAssign:
-				if stage == 8 && badOrder == "" {
-					badOrder = m + " assigns " + ExprStr(e.Lhs[0]) + " although an earlier error is stored"
-				}
-				if stage < 2 && stage != 9 && stage != 8 && badOrder == "" {
-					badOrder = m + " assigns " + ExprStr(e.Lhs[0]) + " before its `emitted` and `err` guards"
+				if strings.HasPrefix(k, pkgBuilder+".BuildPlan.") && !harmless[k] && !e.Inlined {
+					what = "calls " + ShortFn(k)
 				}
 			}
-		}
-		if stage < 2 && stage != 9 && stage != 8 && badOrder == "" {
-			badOrder = m + " has a path that returns without passing the `emitted` and `err` guards"
+			if what == "" || badOrder != "" {
+				continue
+			}
+			if !PathRefutedRange(fl, p, 0, j, map[string]bool{"emitted": true}, atom) {
+				badOrder, posOrder = m+" "+what+" on a path that is possible after Plan() was called (the `emitted` guard does not dominate it): a builder that has emitted its plan must reject every further call", e.Pos
+			} else if !PathRefutedRange(fl, p, 0, j, map[string]bool{"err-stored": true}, atom) {
+				badOrder, posOrder = m+" "+what+" on a path that is possible while an earlier error is stored (the `err` guard does not dominate it): after the first misuse every call must be a no-op", e.Pos
+			}
 		}
 	}
-	r.Check(rule, "prologue:"+m, fn.Decl.Pos(), badOrder == "", "%s", orOK(badOrder, "emitted, then err, before any other effect; a stored error makes the call a no-op"))
-	r.Check(rule, "sticky-first-error:"+m, fn.Decl.Pos(), badSticky == "", "%s", orOK(badSticky, "setErr is only reached with no error stored (or is itself sticky)"))
+	if !guardsSeen && badOrder == "" {
+		badOrder = m + " tests neither `emitted` nor `err`"
+	}
+	r.Check(rule, "prologue:"+m, posOrder, badOrder == "", "%s", orOK(badOrder, "no change of the builder or the plan is possible once emitted or while an error is stored"))
+	r.Check(rule, "sticky-first-error:"+m, posSticky, badSticky == "", "%s", orOK(badSticky, "setErr is only reached with no error stored (or is itself sticky)"))
 }
 
 func rulePlanReturnsStored(r *Run, rule string) {
